@@ -418,6 +418,8 @@ def run_playback(g, h, test_src, logdir):
 INCLUDES = [
     "swimos_runtime__timeout_coord.rs",
     "playback/swimos_runtime__timeout_coord__verif_kani.rs",
+    "swimos_runtime__backpressure.rs",
+    "playback/swimos_runtime__backpressure__verif_kani.rs",
     "swimos_agent__queues.rs",
     "playback/swimos_agent__lanes__queues__verif_kani.rs",
     "swimos_byte_channel__channel.rs",
